@@ -53,8 +53,15 @@ def the_input(case):
     if g == "hostile":
         return "\r\n".join(case["lines"]).encode("utf-8", "replace") + b"\r\n"
     if g == "raw":
-        return case["raw"].encode("utf-8", "surrogateescape") if isinstance(case["raw"], str) else bytes(case["raw"])
+        import base64
+        return base64.b64decode(case["b64"])
     raise ValueError(g)
+
+
+def raw_case(data: bytes):
+    """case for the atheris driver"""
+    import base64
+    return {"gen": "raw", "b64": base64.b64encode(data).decode("ascii")}
 
 
 def total(data, multiple):
@@ -334,7 +341,12 @@ def streams(tier):
         Stream("mutated-fixtures", "hyp", n, 16, fixture_cases, timeout_s=10),
         Stream("structured-hostile", "hyp", n, 12, hostile_cases, timeout_s=10),
         Stream("isolation", "hyp", n // 2, 8, isolate_cases, timeout_s=10),
-    ]
+    ] + ([Stream("atheris-bytes", "custom", 0, 8, _atheris, timeout_s=10)] if tier == "thorough" else [])
+
+
+def _atheris(ctx):
+    from vlib import fuzz
+    fuzz.campaign("checks.c04_parse_total", ctx, 150, use_corpus=ctx["shard"] % 4 != 3)     # every 4th campaign starts from an empty corpus
 
 
 LEVEL_TEXT = ("Generation- and mutation-based fuzzing with a dictionary aimed at the fragile places (time-zone lookup and VTIMEZONE "
